@@ -76,7 +76,12 @@ def checkGtpu (what : String) (impl : String) (want : List Bytes) : List String 
     | none => [s!"C13 {what}: unparsable datagram list"]
     | some got =>
       -- C14: whatever else holds, every datagram that leaves must read as a G-PDU under the reference decoder
-      let illFormed := (got.zipIdx.filter fun (b, _) => (GtpuRef.decode b).isNone).map fun (b, i) =>
+      -- well-formed, whatever it carries: version 1, protocol type GTP, message type 255 (G-PDU), the length field counts
+      -- exactly the octets after the mandatory 8-octet header, the extension chain (if any) ends
+      let wf (b : Bytes) : Bool := match GtpuRef.decode b with
+        | some p => p.version == 1 && p.pt && p.msgType.toNat == 255 && p.length + 8 == b.length
+        | none => false
+      let illFormed := (got.zipIdx.filter fun (b, _) => !wf b).map fun (b, i) =>
         s!"C14 {what}: datagram {i} is not a well-formed GTPv1-U G-PDU (TS 29.281 reference decoder rejects it): {Bytes.toHex (b.take 24)}…"
       illFormed ++
       if got == want then [] else
